@@ -236,8 +236,15 @@ def headers_evaluated(prj):
         plus = it.construct(prj.cls("codelimit.common.gsm.operator.OneOrMore:OneOrMore"), [bal], {}, None, gh)
         brace = it.construct(prj.cls(P + "Symbol:Symbol"), ["{"], {}, None, gh)
         res = []
-        for follow, want in ((brace, [("f", 1, 5)]), (None, [("f", 1, 5), ("g", 7, 10), ("h", 11, 14)])):
-            r = it.call(gh, [tokens, [name, plus]] + ([follow] if follow is not None else []), {})
+        # a follow-up that spans many tokens (a long `throws` clause): twelve names, then the brace
+        toks2 = [("Name", "m"), ("Punctuation", "("), ("Punctuation", ")")] + [("Name", f"e{i}") for i in range(12)] + [("Punctuation", "{"), ("Name", "z")]
+        tokens2 = [make_token(it, prj, k, v, 1, 2 * i + 1) for i, (k, v) in enumerate(toks2)]
+        name2 = it.construct(prj.cls(P + "Name:Name"), [], {}, None, gh)
+        many = it.construct(prj.cls("codelimit.common.gsm.operator.ZeroOrMore:ZeroOrMore"), [name2], {}, None, gh)
+        brace2 = it.construct(prj.cls(P + "Symbol:Symbol"), ["{"], {}, None, gh)
+        for follow, want, toklist in ((brace, [("f", 1, 5)], tokens), (None, [("f", 1, 5), ("g", 7, 10), ("h", 11, 14)], tokens),
+                                      ([many, brace2], [("m", 0, 3)], tokens2)):
+            r = it.call(gh, [toklist, [name, plus]] + ([follow] if follow is not None else []), {})
             r = r.rest() if hasattr(r, "rest") else r
             got = []
             for h in r:
@@ -248,8 +255,28 @@ def headers_evaluated(prj):
                 else:
                     nmv = nm.fields.get("value")
                 got.append((nmv, tr.fields.get("start"), tr.fields.get("end")))
-            res.append((follow is not None, got, want))
+            res.append((follow is not None if toklist is tokens else "long", got, want))
     return res
+
+
+def stateful_first_evaluated(prj):
+    """find_all interpreted through the engine for a pattern that BEGINS with a balanced group: [(name, got, want)]"""
+    from ..absint import MiniInterp, make_token
+    fa = prj.func(f"{GSM}.matcher:find_all")
+    it = MiniInterp(prj, max_steps=2_000_000, max_depth=80)
+    P = "codelimit.common.token_matching.predicate."
+    out = []
+    for text, want in (("( a ) => {", [(0, 4)]), ("( ) => x", [(0, 3)]), ("( a ) => ( ( b ) ) => c", [(0, 4), (4, 10)]), ("a ) => ( b", [])):
+        words = text.split()
+        tokens = [make_token(it, prj, "Name" if w.isalpha() else "Punctuation", w, 1, 2 * i + 1) for i, w in enumerate(words)]
+        bal = it.construct(prj.cls(P + "Balanced:Balanced"), ["(", ")"], {}, None, fa)
+        plus = it.construct(prj.cls("codelimit.common.gsm.operator.OneOrMore:OneOrMore"), [bal], {}, None, fa)
+        arrow = it.construct(prj.cls(P + "Symbol:Symbol"), ["=>"], {}, None, fa)
+        r = it.call(fa, [[plus, arrow], tokens], {})
+        r = r.rest() if hasattr(r, "rest") else r
+        got = [(x.fields.get("start"), x.fields.get("end")) for x in r]
+        out.append((text, got, want))
+    return out
 
 
 def rule_R2_evaluated(ctx, prj) -> bool:
@@ -264,11 +291,12 @@ def rule_R2_evaluated(ctx, prj) -> bool:
         return False
     ok = True
     for with_follow, got, want in res:
-        what = "with the follow-up `{`" if with_follow else "without follow-up"
+        what = "with the follow-up `{`" if with_follow is True else "without follow-up" if with_follow is False else \
+            "on `m ( ) e0 .. e11 { z` with a follow-up of any number of names and `{` (thirteen tokens)"
         if got != want:
             ok = False
             ctx.viol("R2", "get_headers/token-range" if [g[0] for g in got] == [w[0] for w in want] else "get_headers/follow-slice", gh.site(),
-                     f"get_headers on `x f ( a ) {{ y g ( ) ; h ( )` {what} gives (name, start, end) {got}; required {want} "
+                     f"get_headers {'on `x f ( a ) { y g ( ) ; h ( )` ' if with_follow != 'long' else ''}{what} gives (name, start, end) {got}; required {want} "
                      f"(range = the match's start and exclusive end, follow-up matched from that end)")
         else:
             ctx.ok("R2", gh.site(), f"get_headers {what}: {got} (exclusive ends, follow-up from the end)")
@@ -457,6 +485,17 @@ def run(ctx, prj: Project):
             explored = explored or (0, cases)
     except (Unknown, PyRaise) as e:
         ctx.info(f"find_all not evaluable through the engine either ({type(e).__name__}: {e})")
+    # a pattern that begins with a stateful predicate (a balanced group), on tokens
+    try:
+        for text, got, want in stateful_first_evaluated(prj):
+            if got != want:
+                ctx.viol("R6", "find_all/stateful-first", fi.site(), f"find_all([OneOrMore(Balanced('(', ')')), Symbol('=>')], `{text}`) reports {got}; required {want}: "
+                         f"an attempt must begin exactly where its first (balanced) group opens and see a fresh predicate state")
+                break
+        else:
+            ctx.ok("R6", fi.site(), "find_all on token lists for a pattern that begins with a balanced group: 4 sequences as the reference")
+    except (Unknown, PyRaise, AnalysisError, AttributeError, KeyError) as e:
+        ctx.info(f"find_all with a stateful first predicate not evaluable ({type(e).__name__}: {e}); not judged")
     sites = _append_sites(fi)
     if explored is not None:
         ctx.rule("R2", "a reported match's end is the exclusive end (decided by R6 for find_all) and get_headers uses it as such: "
